@@ -21,6 +21,7 @@ scalers/estimators/metrics.
 """
 from .. import protocols
 from ..harness import arr, extobj, index, integer, scalar
+from .. import tq
 from ..interp import State
 from ..terms import FRESH, T, Term
 
@@ -135,7 +136,7 @@ def _rng(ctx, I, st, o, lo, hi, entry):
             ok = seed.has_const and seed.const is not None
             if rs is not None and seed.term == rs.term:
                 ok = True
-            if not ok and "random_state" in repr(seed.term):
+            if not ok and tq.has_sym(seed.term, "random_state"):
                 ok = True
             ctx.ob("R-RNG", f"{e.get('short')}: check_random_state seeded from random_state", ok, f"seed = {seed.term!r}", f"{e.get('func')}:{e.get('line')}", entry)
         elif e["kind"] == "rng-sink":
@@ -145,11 +146,11 @@ def _rng(ctx, I, st, o, lo, hi, entry):
             ok = False
             if seed is not None and rs is not None and seed.term == rs.term:
                 ok = True
-            if seed is not None and (seed.kind == "ext" and rs is not None and repr(rs.term) in repr(seed.term)):
+            if seed is not None and (seed.kind == "ext" and rs is not None and tq.contains(seed.term, rs.term)):
                 ok = True
-            if v0 is not None and rs is not None and "RandomState" in repr(v0.term) and repr(rs.term) in repr(v0.term):
+            if v0 is not None and rs is not None and tq.has_op(v0.term, "RandomState") and tq.contains(v0.term, rs.term):
                 ok = True
-            if o is None and seed is not None and (seed.has_const or "random_state" in repr(seed.term)):
+            if o is None and seed is not None and (seed.has_const or tq.has_sym(seed.term, "random_state")):
                 ok = True
             ctx.ob("R-RNG", f"{e.get('short')}: {e['fn']} receives the estimator's random_state", ok, f"random_state={None if seed is None else seed.term!r} v0={None if v0 is None else v0.term!r}", f"{e.get('func')}:{e.get('line')}", entry)
 
